@@ -125,7 +125,7 @@ pub fn run(tier: Tier, seed: u64) -> i32 {
         "expressions generated inside the compiled subset (f64 arithmetic, same-type comparisons over Float64/Int64/Int32/Date32 with literals on either side, AND/OR/NOT, [NOT] BETWEEN, AND/OR chains up to and past the 24-register limit) and just outside it (mixed-type comparison); batches of lengths {0,1,7,8,9,1023,1024,1025,2048,3000} at slice offsets {0,1,3,1021}, NULL densities 0/10/50/100%, NaN, +-0.0, +-inf, subnormals, 2^53+1, i64/i32 extremes; compiled mask vs interpreter mask: validity everywhere, values where valid. distinct = distinct (expression, batch shape) pairs that compiled and were evaluated by the fused path",
     );
     let mut rng = Rng::new(seed ^ 0xC06);
-    let n_expr = tier.pick(20_000, 400_000);
+    let n_expr = tier.pick(12_000, 400_000);
     let lens = [0usize, 1, 7, 8, 9, 1023, 1024, 1025, 2048, 3000];
     let (mut compiled_n, mut declined, mut per_batch_decline, mut compared) = (0u64, 0u64, 0u64, 0u64);
     // a pool of batches reused across expressions
